@@ -95,7 +95,8 @@ def run_case(case, ch: Choices) -> RunResult:
     try:
         # ---- reference step: fresh everything
         root0 = os.path.join(base, "s0")
-        m0 = worlds.materialize(world, root0, spart, qpart)
+        tail_seed = ch.draw("lay.tails", 2 ** 16) if not p.get("corpus") else 11
+        m0 = worlds.materialize(world, root0, spart, qpart, tail_seed=tail_seed)
         r0 = genrun.run_child(root0, m0["argv"], m0["targets"], hashseed=0, clock=1_700_000_000.0)
         if r0.get("harness_failure"):
             raise RuntimeError("child failed: %s" % r0.get("child_stderr"))
@@ -125,7 +126,7 @@ def run_case(case, ch: Choices) -> RunResult:
                     st["crash_kind"] = ch.pick("env.crash_kind", ["crash", "enospc", "eio"])
             envs.append(st)
             root = os.path.join(base, "s%d" % si)
-            m = worlds.materialize(world, root, spart, qpart, creation_order_seed=st["creation_seed"])
+            m = worlds.materialize(world, root, spart, qpart, creation_order_seed=st["creation_seed"], tail_seed=tail_seed)
             target = m["targets"][0]
             prior = st["prior"]
             if ref["exit"] != 0 and prior in ("over_existing", "crashed_prefix", "twice"):
